@@ -356,8 +356,17 @@ func (s *scanner) isDone(resp *pb.ScanResponse, region hrpc.RegionInfo) bool {
 	}
 
 	//  Reversed Scanner
-	return len(s.rpc.StopRow()) != 0 && // (2)
-		bytes.Compare(s.rpc.StopRow(), region.StartKey()) >= 0 // (3)
+	if len(s.rpc.StopRow()) == 0 { // (2)
+		return false
+	}
+	if bytes.Compare(s.rpc.StopRow(), region.StartKey()) >= 0 { // (3)
+		return true
+	}
+	// (4) the only row before this region's start key is the (exclusive) stop row
+	// itself: the next request would have start row == stop row, which
+	// regionservers treat as a Get of that row.
+	rsk := region.StartKey()
+	return rsk[len(rsk)-1] == 0x0 && bytes.Equal(s.rpc.StopRow(), rsk[:len(rsk)-1])
 }
 
 func (s *scanner) isRegionScannerClosed() bool {
